@@ -456,12 +456,21 @@ def autotool(selector, undo=False):
     if undo:
         rval = rval.wrap_functions(_untooler)
     else:
-        tooled_sel = rval.wrap_functions(_tooler)
+        done = []
+
+        def _tool(fn, captures):
+            fn = _tooler(fn, captures)
+            done.append((fn, captures))
+            return fn
+
         try:
+            tooled_sel = rval.wrap_functions(_tool)
             verify(tooled_sel)
         except BaseException:
-            # The selector is refused: do not leave its functions tooled
-            rval.wrap_functions(_untooler)
+            # The selector is refused, possibly part-way through (one of its
+            # functions cannot be tooled): do not leave the others tooled
+            for fn, captures in reversed(done):
+                _untooler(fn, captures)
             raise
         rval = tooled_sel
     return rval
